@@ -4,7 +4,7 @@
 //@ assume: strings explored: every valid UTF-8 string of at most 3 bytes made of ASCII bytes and at most one 2-byte character (the shapes that decide char-boundary behaviour); longer strings repeat the same per-pair step
 //@ harness from_hex_nopanic_ascii kind=bounded tier=thorough fns=util::from_hex bound=all_ASCII_strings_of_length<=2
 //@ harness from_hex_nopanic_ascii3 kind=bounded tier=thorough fns=util::from_hex bound=all_ASCII_strings_of_length<=3
-//@ harness from_hex_nopanic_2byte kind=bounded tier=quick fns=util::from_hex bound=strings_a+2-byte-char_(a_ASCII)
+//@ harness from_hex_nopanic_2byte kind=bounded tier=thorough fns=util::from_hex bound=strings_a+2-byte-char_(a_ASCII)
 //@ harness from_hex_nopanic_2byte4 kind=bounded tier=thorough fns=util::from_hex bound=strings_a+2-byte-char+b_(a,b_ASCII)
 fn stub_format(_args: core::fmt::Arguments<'_>) -> String {
 	String::new()
